@@ -357,6 +357,8 @@ fn do_joins(h: Box<dyn H>, spec: &Value, m: &Marks) -> Value {
         joins.push(json!({"r": r, "t_call": t_call.to_string(), "t_ret": t_ret.to_string(), "first": first,
                           "fin_before": before.to_string(), "fin_after": after.to_string()}));
     }
+    // when the body did produce its outcome (a call that gave up early must not hide it)
+    wait_fin(m, 6000);
     json!({"joins": joins, "started": m.started.load(Ordering::Acquire).to_string(),
            "fin": m.fin.load(Ordering::Acquire).to_string()})
 }
